@@ -610,7 +610,7 @@ Proof.
     destruct (cs - e =? 0); [intros H; injection H as <- <-; now split|].
     destruct (N.leb_spec ca (cs - e)) as [|_]; [lia|].
     cbn [orb]. intros H; injection H as <- <-; now split. }
-  cbn [step layout_env force_explicit_padding is_rust_union latest_offset
+  cbn [step layout_env force_explicit_padding is_union is_rust_union latest_offset
        last_field_was_flexible_array].
   destruct force; cbn [negb andb].
   - destruct (e =? cs); cbn [negb].
